@@ -27,8 +27,12 @@ structure MState where
   releasedProp : List (Bytes × PropData) := []
 
 inductive MStep : MState → MState → Prop where
-  /-- a request runs up to its rules verdict; what it approved becomes in-flight -/
-  | request (m : MState) (op : Op) :
+  /-- a request runs up to its rules verdict; what it approved becomes in-flight.  Operations that do not
+      sign (account creation, lock / unlock, the import command, the raw rules-level import) are requests
+      too, unrestricted except for the raw import `Op.importRec`, which is only considered when it covers
+      what the instance has approved so far for its key (`Op.safeAt`, i.e. `ImportCovers`): `importKey`
+      overwrites, so a raw import below that lowers the record whatever the crash behaviour is. -/
+  | request (m : MState) (op : Op) : op.safeAt m.inst →
       MStep m { m with inst := (step m.inst op).1,
                        inflightAtt := m.inflightAtt ++ ((step m.inst op).1.attLog.drop m.inst.attLog.length),
                        inflightProp := m.inflightProp ++ ((step m.inst op).1.propLog.drop m.inst.propLog.length) }
